@@ -3,13 +3,14 @@ usage: python -m mc.seedbatch C05 C08 ...        (each worktree /tmp/wt_cNN with
 """
 import json, os, shutil, subprocess, sys
 V = os.path.dirname(os.path.dirname(os.path.abspath(__file__)))
-for pid in sys.argv[1:]:
-    wt = f"/tmp/wt_c{pid[1:]}"
+ROUND = os.environ.get("SEED_ROUND", "")          # "" = round 1 (/tmp/wt_cNN), "2" = round 2 (/tmp/wt2_cNN)
+for pid in [a for a in sys.argv[1:] if not a.startswith("--")]:
+    wt = f"/tmp/wt{ROUND}_c{pid[1:]}"
     for x in "AB":
         patch, demo = f"{wt}/seed_{x}.patch.diff", f"{wt}/demo_{x}.py"
         if not (os.path.exists(patch) and os.path.exists(demo)):
             print(pid, x, "missing"); continue
-        d = f"{V}/seeded/{pid}_{x}"
+        d = f"{V}/seeded/{pid}_{x}" if not ROUND else f"{V}/seeded/{pid}_r{ROUND}{x}"
         os.makedirs(d, exist_ok=True)
         shutil.copy(patch, f"{d}/patch.diff"); shutil.copy(demo, f"{d}/demo.py")
         if os.path.exists(f"{d}/run.json") and "--force" not in sys.argv:
